@@ -43,6 +43,12 @@ func (c *Ctx) loadOfFieldOf(v ssa.Value, base ssa.Value, fld *types.Var) bool {
 // freshCopyOf: v is a freshly allocated slice whose contents are copied from src (a load of fld of base).
 func (c *Ctx) freshSliceCopyOfField(v ssa.Value, base ssa.Value, fld *types.Var) (bool, string) {
 	v = c.Resolve(v)
+	if src := c.makeCopySource(v); src != nil {
+		if c.loadOfFieldOf(src, base, fld) {
+			return true, "make + copy(dst, recv." + fld.Name() + ")"
+		}
+		return false, "copy source is not the receiver's " + fld.Name()
+	}
 	call, ok := v.(*ssa.Call)
 	if !ok {
 		return false, "stored value is not the result of append/clone call: " + v.String()
@@ -135,66 +141,96 @@ func checkC20(r *Run) {
 			r2.Lost(FuncName(f), "unexpected signature")
 			continue
 		}
-		msg := f.Params[1]
-		handovers := 0
-		for _, g := range withClosures(f) {
-			eachInstr(g, func(in ssa.Instruction) {
-				cc := callCommon(in)
-				if cc == nil || !cc.IsInvoke() || cc.Method.Name() != "Serve" || typeName(cc.Value.Type()) != "Handler" {
-					return
-				}
-				handovers++
-				key := FuncName(g) + "/Serve"
-				if len(cc.Args) != 1 {
-					r2.Undecided(key, in.Pos(), "unexpected arity")
-					return
-				}
-				arg := c.Resolve(cc.Args[0])
-				k, ok := arg.(*ssa.Call)
-				if !ok || c.StaticCalleeOf(&k.Call) != clone || clone == nil {
-					r2.Bad(key, in.Pos(), "handler receives %s, which is not the result of a clone() call", cc.Args[0].Name())
-					return
-				}
-				if len(k.Call.Args) != 1 || c.Resolve(k.Call.Args[0]) != ssa.Value(msg) {
-					r2.Bad(key, in.Pos(), "the clone handed over is not taken from the dispatcher's own parameter (receiver %s): an earlier handler's copy or another message leaks into this hand-over", k.Call.Args[0].Name())
-					return
-				}
-				if k.Parent() != f {
-					r2.Bad(key, in.Pos(), "clone() is evaluated inside closure %s, i.e. possibly after the dispatcher returned / in another goroutine; the caller may already have reused its message", FuncName(k.Parent()))
-					return
-				}
-				if g != f {
-					r2.Bad(key, in.Pos(), "hand-over happens inside closure %s; the copy must be an operand of the go statement", FuncName(g))
-					return
-				}
-				// fresh per hand-over: no path from entry or from any hand-over to this one avoiding the clone call
-				avoid := PathQ{BlockInstr: func(x ssa.Instruction) bool { return x == ssa.Instruction(k) }}
-				if _, ok := CanReach(f, nil, func(x ssa.Instruction) bool { return x == in }, avoid); ok {
-					r2.Bad(key, in.Pos(), "a path reaches this hand-over without executing its clone() call")
-					return
-				}
-				stale := false
-				eachInstr(f, func(j ssa.Instruction) {
-					cj := callCommon(j)
-					if cj == nil || !cj.IsInvoke() || cj.Method.Name() != "Serve" {
+		type disp2 struct {
+			f   *ssa.Function
+			msg *ssa.Parameter
+		}
+		work := []disp2{{f, f.Params[1]}}
+		top := f
+		seenD := map[*ssa.Function]bool{f: true}
+		totalHandovers := 0
+		for len(work) > 0 {
+			f := work[0].f
+			msg := work[0].msg
+			work = work[1:]
+			handovers := 0
+			for _, g := range withClosures(f) {
+				eachInstr(g, func(in ssa.Instruction) {
+					cc := callCommon(in)
+					if cc == nil || !cc.IsInvoke() || cc.Method.Name() != "Serve" || typeName(cc.Value.Type()) != "Handler" {
 						return
 					}
-					if _, ok := CanReach(f, j, func(x ssa.Instruction) bool { return x == in }, avoid); ok {
-						stale = true
+					handovers++
+					key := FuncName(g) + "/Serve"
+					if len(cc.Args) != 1 {
+						r2.Undecided(key, in.Pos(), "unexpected arity")
+						return
 					}
+					arg := c.Resolve(cc.Args[0])
+					k, ok := arg.(*ssa.Call)
+					if !ok || c.StaticCalleeOf(&k.Call) != clone || clone == nil {
+						r2.Bad(key, in.Pos(), "handler receives %s, which is not the result of a clone() call", cc.Args[0].Name())
+						return
+					}
+					if len(k.Call.Args) != 1 || c.Resolve(k.Call.Args[0]) != ssa.Value(msg) {
+						r2.Bad(key, in.Pos(), "the clone handed over is not taken from the dispatcher's own parameter (receiver %s): an earlier handler's copy or another message leaks into this hand-over", k.Call.Args[0].Name())
+						return
+					}
+					if k.Parent() != f {
+						r2.Bad(key, in.Pos(), "clone() is evaluated inside closure %s, i.e. possibly after the dispatcher returned / in another goroutine; the caller may already have reused its message", FuncName(k.Parent()))
+						return
+					}
+					if g != f {
+						r2.Bad(key, in.Pos(), "hand-over happens inside closure %s; the copy must be an operand of the go statement", FuncName(g))
+						return
+					}
+					// fresh per hand-over: no path from entry or from any hand-over to this one avoiding the clone call
+					avoid := PathQ{BlockInstr: func(x ssa.Instruction) bool { return x == ssa.Instruction(k) }}
+					if _, ok := CanReach(f, nil, func(x ssa.Instruction) bool { return x == in }, avoid); ok {
+						r2.Bad(key, in.Pos(), "a path reaches this hand-over without executing its clone() call")
+						return
+					}
+					stale := false
+					eachInstr(f, func(j ssa.Instruction) {
+						cj := callCommon(j)
+						if cj == nil || !cj.IsInvoke() || cj.Method.Name() != "Serve" {
+							return
+						}
+						if _, ok := CanReach(f, j, func(x ssa.Instruction) bool { return x == in }, avoid); ok {
+							stale = true
+						}
+					})
+					if stale {
+						r2.Bad(key, in.Pos(), "the same clone can be handed to two handlers (a path from one hand-over to the next avoids the clone() call: hoisted out of the loop?)")
+						return
+					}
+					r2.OK(key, in.Pos(), "argument is clone(%s) evaluated in %s before each hand-over", msg.Name(), FuncName(f))
 				})
-				if stale {
-					r2.Bad(key, in.Pos(), "the same clone can be handed to two handlers (a path from one hand-over to the next avoids the clone() call: hoisted out of the loop?)")
+			}
+			totalHandovers += handovers
+			// helpers that receive the dispatcher's message unchanged are analysed as part of the dispatcher
+			eachInstr(f, func(in ssa.Instruction) {
+				k, ok := in.(*ssa.Call)
+				if !ok {
 					return
 				}
-				r2.OK(key, in.Pos(), "argument is clone(%s) evaluated in %s before each hand-over", msg.Name(), FuncName(f))
+				h := c.StaticCalleeOf(&k.Call)
+				if h == nil || h.Pkg != c.Pkg || h == clone || seenD[h] || h.Name() == "Match" {
+					return
+				}
+				for i, a := range k.Call.Args {
+					if c.Resolve(a) == ssa.Value(msg) && i < len(h.Params) {
+						seenD[h] = true
+						work = append(work, disp2{h, h.Params[i]})
+					}
+				}
 			})
+			// R-C20-3
+			c.checkNoBackChannel(r3, f, msg, clone, seenD)
 		}
-		if handovers == 0 {
-			r2.Lost(FuncName(f), "no Handler.Serve hand-over found in dispatcher")
+		if totalHandovers == 0 {
+			r2.Lost(FuncName(top), "no Handler.Serve hand-over found in dispatcher")
 		}
-		// R-C20-3
-		c.checkNoBackChannel(r3, f, msg, clone)
 	}
 }
 
@@ -304,7 +340,7 @@ func (c *Ctx) checkCloneDeep(r1 *RuleRep, clone *ssa.Function, st *types.Struct)
 
 // checkNoBackChannel: the message parameter and clone results are used only to read fields, as clone receiver,
 // or as the hand-over argument.
-func (c *Ctx) checkNoBackChannel(r3 *RuleRep, f *ssa.Function, msg *ssa.Parameter, clone *ssa.Function) {
+func (c *Ctx) checkNoBackChannel(r3 *RuleRep, f *ssa.Function, msg *ssa.Parameter, clone *ssa.Function, helpers map[*ssa.Function]bool) {
 	var vals []ssa.Value
 	vals = append(vals, msg)
 	for _, g := range withClosures(f) {
@@ -357,7 +393,7 @@ func (c *Ctx) checkNoBackChannel(r3 *RuleRep, f *ssa.Function, msg *ssa.Paramete
 				if clone != nil && c.StaticCalleeOf(cc) == clone {
 					continue
 				}
-				if callee := c.StaticCalleeOf(cc); callee != nil && callee.Pkg == c.Pkg && callee.Name() == "Match" {
+				if callee := c.StaticCalleeOf(cc); callee != nil && callee.Pkg == c.Pkg && (callee.Name() == "Match" || helpers[callee]) {
 					continue
 				}
 				bad = true
@@ -381,4 +417,34 @@ func (c *Ctx) checkNoBackChannel(r3 *RuleRep, f *ssa.Function, msg *ssa.Paramete
 	if !bad {
 		r3.OK(FuncName(f), f.Pos(), "message parameter and clone results are only read, cloned or handed to Handler.Serve")
 	}
+}
+
+// makeCopySource: v is make([]T, len(src)[, cap]) that is filled by copy(v, src) before any other use; returns src.
+func (c *Ctx) makeCopySource(v ssa.Value) ssa.Value {
+	mk, ok := v.(*ssa.MakeSlice)
+	if !ok {
+		return nil
+	}
+	var src ssa.Value
+	for _, u := range *mk.Referrers() {
+		k, ok := u.(*ssa.Call)
+		if !ok {
+			continue
+		}
+		if b, ok := k.Call.Value.(*ssa.Builtin); ok && b.Name() == "copy" && len(k.Call.Args) == 2 && k.Call.Args[0] == ssa.Value(mk) {
+			src = k.Call.Args[1]
+		}
+	}
+	if src == nil {
+		return nil
+	}
+	// length = len(src)
+	lc, ok := mk.Len.(*ssa.Call)
+	if !ok {
+		return nil
+	}
+	if b, ok := lc.Call.Value.(*ssa.Builtin); !ok || b.Name() != "len" || !c.Same(lc.Call.Args[0], src) {
+		return nil
+	}
+	return src
 }
